@@ -332,6 +332,6 @@ def _static_entries():
 
 
 def run_shard(ctx, spec):
-    per = 100 if ctx.tier == "quick" else 1500
+    per = 200 if ctx.tier == "quick" else 1500
     for idx in spec["indices"]:
         ctx.explore("convert", cases(idx), per, shrink=True, shrink_examples=per, salt=idx)
